@@ -15,7 +15,7 @@ from vcheck.extra import hook
 ROOT = os.path.dirname(os.path.dirname(os.path.dirname(os.path.abspath(__file__))))
 PID = "C07"
 # roots for which the analysis is exact on the unchanged tree (only the known findings are reported)
-PROVED_ROOTS = ["compileTTF", "compileOTF"]
+PROVED_ROOTS = ["compileTTF", "compileOTF", "compileInterpolatableTTFs", "compileInterpolatableTTFsFromDS", "compileInterpolatableOTFsFromDS"]
 ALL_ROOTS = [
     "compileTTF", "compileOTF", "compileInterpolatableTTFs", "compileInterpolatableTTFsFromDS", "compileInterpolatableOTFsFromDS",
     "compileVariableTTF", "compileVariableTTFs", "compileVariableCFF2", "compileVariableCFF2s",
